@@ -11,6 +11,54 @@ ALL = [f"C{n:02d}" for n in range(1, 21)]
 
 # id -> (category, technique, level text, level note, design ref)
 CHECKS = {
+    "C01": (
+        "exploration",
+        "property-based testing (Hypothesis) of the remapper against an independent partition oracle, API and CLI level",
+        "Generated (input assembly, PretextView-model or perturbed map, texel size) triples are remapped; every completed run's "
+        "output fragments over all assemblies must tile every input contig exactly once and invent nothing; errors are allowed. "
+        "The CLI sub-check re-reads the written AGP/TPF files with an independent reader. Exploration: the input space is "
+        "unbounded and the oracle is cheap, so dense seeded sampling of the geometry classes (sub-texel contigs, reverse strands, "
+        "overlapping / duplicated / out-of-range pieces) is the reachable level.",
+        "Trusted: vf/ref.py partition_violation and the plain AGP/TPF readers; Hypothesis. Contigs are unique in the input.",
+        "DESIGN.md section 5 / C01",
+    ),
+    "C02": (
+        "exploration",
+        "property-based testing (Hypothesis) with a validity-predicate oracle (core run, order, exact deep cuts) over PretextView-model maps",
+        "Every generated PretextView-model edit script must remap without error; for each piece the bases more than 3*(1+floor(t)) "
+        "from its ends must appear as one contiguous collinear run in exactly one output scaffold with the right strands and input "
+        "gaps, in Pretext order, and deep cuts must be exact. Many outputs are acceptable, so the oracle is a predicate, not an "
+        "expected value. Exploration over texel sizes 1..5000, mixed strands, cuts snapped near contig ends.",
+        "Trusted: vf/ref.py core_segments / find_run; the generator's PretextView model (coords floor(k*bp_per_texel), pieces >= 2 texels).",
+        "DESIGN.md section 5 / C02",
+    ),
+    "C07": (
+        "exploration",
+        "property-based testing (Hypothesis): input neighbour table vs every output junction and gap run",
+        "For generated model maps (weighted to left-over trailing contigs, absent scaffolds, cut-and-rejoined contigs) and for "
+        "perturbed maps that complete, every pair of consecutive output fragments and every gap run is compared with the input's "
+        "neighbour table. Exploration with targeted generators for the left-over path the specimens never exercise.",
+        "Trusted: vf/ref.py adjacencies / neighbour_table. Abutting sub-fragments of one cut contig may be adjacent.",
+        "DESIGN.md section 5 / C07",
+    ),
+    "C08": (
+        "exploration",
+        "property-based testing (Hypothesis): identity oracle on generated null maps (API and CLI)",
+        "Generated null maps (floor/ceil texel rounding, sub-texel scaffolds absent, precondition enforced by construction) must "
+        "reproduce the input exactly with zero statistics; painted null maps may change only names and order. One open finding "
+        "(KF-C08-1, fractional texel edge) is listed in known_findings.json and excluded by predicate.",
+        "Trusted: plain-data comparison of rows; ref.read_agp for the CLI sub-check. Names outside the haplotype-prefix pattern.",
+        "DESIGN.md section 5 / C08",
+    ),
+    "C11": (
+        "exploration",
+        "property-based testing (Hypothesis): differential against an independent unordered-adjacency count (API, log line, info.yaml)",
+        "Reported cuts / breaks / joins are compared with a count made from the statement's definition (adjacency = unordered pair "
+        "of facing contig ends) on generated maps with mixed-strand junctions, whole-scaffold reversals, cuts and perturbed maps; "
+        "the CLI sub-check parses the log line and info.yaml and counts haplotig scaffolds written.",
+        "Trusted: vf/ref.py adjacency_set (no code shared with Fragment.junction_tuple).",
+        "DESIGN.md section 5 / C11",
+    ),
     "C12": (
         "exploration",
         "property-based testing (Hypothesis) + exhaustive small-scope enumeration against a brute-force scan oracle",
